@@ -238,26 +238,26 @@ macro_rules! proofs {
     )*};
 }
 
-// @harness c02_partial_dsym_n2d2_values tier=quick unwind=5 block=64 mem=11 timeout=1212
-// @harness c02_partial_dsym_n2d2_values_reach tier=quick unwind=5 block=64 mem=10 timeout=1200 twin
-// @harness c02_partial_dsym_n2d2_symmetry tier=quick unwind=5 block=64 mem=16 timeout=1606
-// @harness c02_partial_dsym_n2d2_orbits tier=quick unwind=5 block=64 mem=18 timeout=1975
-// @harness c02_simple_dsym_n2d2_values tier=quick unwind=5 block=64 mem=11 timeout=1200
-// @harness c02_simple_dsym_n2d2_values_reach tier=quick unwind=5 block=64 mem=10 timeout=1200 twin
-// @harness c02_simple_dsym_n2d2_symmetry tier=quick unwind=5 block=64 mem=16 timeout=1655
-// @harness c02_simple_dsym_n2d2_orbits tier=quick unwind=5 block=64 mem=18 timeout=1934
-// @harness c02_collect_orbits_n2d2 tier=quick unwind=5 block=64 mem=9 timeout=1200
-// @harness c02_collect_orbits_n2d2_reach tier=quick unwind=5 block=64 mem=9 timeout=1200 twin
-// @harness c02_collect_orbits_n3d2 tier=thorough unwind=6 block=128 mem=24 timeout=3000
-// @harness c02_conv_partial_dsym_n2d2 tier=quick unwind=5 block=64 mem=27 timeout=3428
-// @harness c02_conv_dset_n2d2 tier=quick unwind=5 block=64 mem=9 timeout=1200
-// @harness c02_conv_dsym_n2d2 tier=quick unwind=5 block=64 mem=19 timeout=2618
-// @harness c02_conv_dsym_n2d2_reach tier=quick unwind=5 block=64 mem=17 timeout=1200 twin
-// @harness c02_partial_dsym_n3d2_values tier=thorough unwind=6 block=128 mem=28 timeout=3600
-// @harness c02_simple_dsym_n3d2_values tier=thorough unwind=6 block=128 mem=28 timeout=3600
-// @harness c02_simple_dsym_n2d3_values tier=thorough unwind=6 block=128 mem=28 timeout=3600
-// @harness c02_simple_dsym_n2d3_symmetry tier=thorough unwind=6 block=128 mem=28 timeout=3600
-// @harness c02_partial_dsym_n2d3_values tier=thorough unwind=6 block=128 mem=28 timeout=3600
+// @harness c02_partial_dsym_n2d2_values tier=quick unwind=5 block=64 mem=6 timeout=1200
+// @harness c02_partial_dsym_n2d2_values_reach tier=quick unwind=5 block=64 mem=6 timeout=1200 twin
+// @harness c02_partial_dsym_n2d2_symmetry tier=quick unwind=5 block=64 mem=7 timeout=1200
+// @harness c02_partial_dsym_n2d2_orbits tier=quick unwind=5 block=64 mem=7 timeout=1294
+// @harness c02_simple_dsym_n2d2_values tier=quick unwind=5 block=64 mem=6 timeout=1200
+// @harness c02_simple_dsym_n2d2_values_reach tier=quick unwind=5 block=64 mem=6 timeout=1200 twin
+// @harness c02_simple_dsym_n2d2_symmetry tier=quick unwind=5 block=64 mem=7 timeout=1200
+// @harness c02_simple_dsym_n2d2_orbits tier=quick unwind=5 block=64 mem=7 timeout=1310
+// @harness c02_collect_orbits_n2d2 tier=quick unwind=5 block=64 mem=6 timeout=1200
+// @harness c02_collect_orbits_n2d2_reach tier=quick unwind=5 block=64 mem=6 timeout=1200 twin
+// @harness c02_collect_orbits_n3d2 tier=thorough unwind=6 block=128 mem=24 timeout=3000 stretch
+// @harness c02_conv_partial_dsym_n2d2 tier=quick unwind=5 block=64 mem=12 timeout=2620
+// @harness c02_conv_dset_n2d2 tier=quick unwind=5 block=64 mem=6 timeout=1200
+// @harness c02_conv_dsym_n2d2 tier=quick unwind=5 block=64 mem=10 timeout=2195
+// @harness c02_conv_dsym_n2d2_reach tier=quick unwind=5 block=64 mem=8 timeout=1200 twin
+// @harness c02_partial_dsym_n3d2_values tier=thorough unwind=6 block=128 mem=28 timeout=3600 stretch
+// @harness c02_simple_dsym_n3d2_values tier=thorough unwind=6 block=128 mem=28 timeout=3600 stretch
+// @harness c02_simple_dsym_n2d3_values tier=thorough unwind=6 block=128 mem=28 timeout=3600 stretch
+// @harness c02_simple_dsym_n2d3_symmetry tier=thorough unwind=6 block=128 mem=28 timeout=3600 stretch
+// @harness c02_partial_dsym_n2d3_values tier=thorough unwind=6 block=128 mem=28 timeout=3600 stretch
 // @harness c02_simple_dsym_n3d3_values tier=thorough unwind=6 block=128 mem=40 timeout=3600 stretch
 // @harness c02_simple_dsym_n3d2_symmetry tier=thorough unwind=6 block=128 mem=28 timeout=3600 stretch
 // @harness c02_simple_dsym_n3d2_orbits tier=thorough unwind=6 block=128 mem=28 timeout=3600 stretch
